@@ -86,6 +86,10 @@ def documentedExceptions : List String := [
   "dask_array/io/_from_array.py::FromArray.__dask_tokenize__::uuid.uuid4()",
   -- hand-built region name: tokenize of slices / ints only
   "dask_array/io/_from_array.py::FromArray._accept_slice::nonstrict tokenize(old_region, region_index, new_region)",
+  -- integer extraction above a region read of a user-named source: tokenize of the hand-built name string and the
+  -- read's cached token (for from_array(name="x") that token carries the documented per-call uuid above; it is cached
+  -- in `_determ_token` and pickled with the node)
+  "dask_array/io/_from_array.py::FromArray._accept_slice::nonstrict tokenize(extract_determ, self.deterministic_token)",
   -- hand-built rechunk name: tokenize of chunk tuples only
   "dask_array/io/_from_array.py::FromArray._with_chunks::nonstrict tokenize(self.chunks, chunks)",
   -- Random: tokenize of the spawned seeds / sizes / chunks / distribution args
